@@ -413,9 +413,10 @@ Fixpoint validate_loop (i : nat) (ps : list (list Z)) (budgets : list Z) (n : Z)
   end.
 
 Definition validate (ps : list (list Z)) (budgets : list Z) (n : Z) : Z :=
-  match ps with
-  | [] => 1
-  | _ =>
+  match ps, budgets with
+  | [], _ => 1
+  | _, [] => -1 (* budgets[min(i, len(budgets)-1)] with no budgets: index out of range (flightBudgets never returns none) *)
+  | _, _ =>
     match validate_loop 0 ps budgets n [] with
     | inl c => c
     | inr cs => if forallb (covered_by cs) (map Z.of_nat (seq 0 (Z.to_nat n))) then 0 else 5
